@@ -16,7 +16,17 @@ type sessionEngine struct{}
 
 func init() {
 	engines["C05"] = sessionEngine{}
-	engines["C06"] = sessionEngine{}
+	engines["C06"] = c06Engine{}
+}
+
+// c06Engine runs the real-server session batches and the scripted-healthy-peer batches.
+type c06Engine struct{}
+
+func (c06Engine) Run(t *testing.T, batch string, tape *rt.Tape, runIdx uint64, extra json.RawMessage, trace func(string)) RunRecord {
+	if strings.HasPrefix(batch, "c06.peer") {
+		return clientEngine{"C06"}.Run(t, batch, tape, runIdx, extra, trace)
+	}
+	return sessionEngine{}.Run(t, batch, tape, runIdx, extra, trace)
 }
 
 // SweepExtra selects one delay point of a sweep: the worker maps run indexes to points.
